@@ -95,6 +95,15 @@ pub fn replay_path<M: Model>(
     path: &[u32],
     verbose: bool,
 ) -> Result<Option<Violation>, String> {
+    crate::util::with_replaying(|| replay_path_inner(m, init, path, verbose))
+}
+
+fn replay_path_inner<M: Model>(
+    m: &M,
+    init: usize,
+    path: &[u32],
+    verbose: bool,
+) -> Result<Option<Violation>, String> {
     let mut inits = m.inits();
     if init >= inits.len() {
         return Err(format!("init index {} out of range", init));
